@@ -8,7 +8,13 @@
 //! order, duplicated, aborted, truncated.  Every request is submitted through the REAL
 //! `Request::send` (hook `VerifTransport::request`) in its own task; what that call returns is the
 //! completion that is observed.  Time: the hook `backdate` moves the stored deadlines into the
-//! past instead of sleeping.
+//! past instead of sleeping; one unit of model time is 1000 s of real deadline, so the few
+//! milliseconds (seconds, on a loaded machine) the run itself takes never change a class.
+//! The wake-up instant: the operations Scan and Sleep call the REAL `next_timeout` (hook
+//! `VerifTransport::next_timeout`, a call-through), report what it returns as the distance from
+//! now in units (-1: None), and Sleep then lets exactly that much time pass (or less, when the
+//! case says something else ends the sleep earlier): the harness plays `select!` on
+//! `sleep_until(wake-up)` in `wait_for_outgoing_message`.
 #[path = "../util.rs"]
 mod util;
 use util::*;
@@ -25,7 +31,7 @@ use opcua::crypto::CertificateStore;
 use opcua::sync::RwLock;
 use opcua::types::*;
 use std::sync::Arc;
-use std::time::Duration;
+use std::time::{Duration, Instant};
 
 const PART: usize = 64; // body bytes per response chunk
 const UNIT: u64 = 1000; // seconds of real deadline per unit of model time
@@ -41,6 +47,8 @@ pub enum Op {
     ErrMsg(u32),                           // status class
     Advance(u32),
     Close(u32),                            // status class
+    Scan,                                  // next_timeout
+    Sleep(i32),                            // next_timeout, then sleep until the wake-up returned (at most lim units if lim >= 0)
 }
 #[derive(Clone, Debug)]
 pub struct Case { maxinfl: u32, maxpend: u32, ops: Vec<Op> }
@@ -109,6 +117,15 @@ fn part_bytes(mid: u32, part: u32, n: u32) -> Vec<u8> {
     if part == 0 { response_bytes(mid, n.max(1) as usize)[..PART].to_vec() } else { vec![0xFFu8; PART] }
 }
 
+/// an instant as the distance from now in units, rounded to the nearest unit (deadlines are whole
+/// units plus the few milliseconds between the start of the case and the submission)
+fn units_from_now(t: Instant) -> i128 {
+    let now = Instant::now();
+    let half = UNIT as f64 / 2.0;
+    if t >= now { ((t - now).as_secs_f64() + half) as i128 / UNIT as i128 }
+    else { -(((now - t).as_secs_f64() + half) as i128 / UNIT as i128) }
+}
+
 async fn settle() { for _ in 0..16 { tokio::task::yield_now().await; } }
 
 type Handle = tokio::task::JoinHandle<Result<SupportedMessage, StatusCode>>;
@@ -143,6 +160,7 @@ async fn exec_async(c: &Case) -> Vec<i128> {
     let mut k = 0u32;
     let mut closed = false;
     for op in &c.ops {
+        let mut wake: Option<i128> = None;
         match op {
             Op::Submit(t, kind) => {
                 let timeout = Duration::from_secs(*t as u64 * UNIT);
@@ -210,8 +228,24 @@ async fn exec_async(c: &Case) -> Vec<i128> {
             }
             Op::Advance(t) => { vt.backdate(Duration::from_secs(*t as u64 * UNIT)); }
             Op::Close(cls) => { if !closed { vt.close(status_of(*cls)).await; closed = true; } }
+            Op::Scan | Op::Sleep(_) => {
+                settle().await;
+                // the loop of wait_for_outgoing_message: next_timeout(), then sleep_until(what it returned)
+                let w = vt.next_timeout().map(units_from_now);
+                // a wake-up that is not in the future reads 0 (the model never has one)
+                wake = Some(match w { Some(o) => o.max(0), None => -1 });
+                if let Op::Sleep(lim) = op {
+                    let lim = *lim as i128;
+                    let adv = match w {
+                        Some(o) => if lim < 0 { o } else { o.min(lim) },
+                        None => if lim < 0 { 0 } else { lim },
+                    };
+                    if adv > 0 { vt.backdate(Duration::from_secs(adv as u64 * UNIT)); }
+                }
+            }
         }
         collect(&mut outstanding, &mut out).await;
+        if let Some(w) = wake { out.push(w); }
         out.push(closed as i128);
     }
     out
@@ -226,6 +260,8 @@ fn term(c: &Case) -> String {
         Op::ErrMsg(c) => format!("ErrMsg {}", c),
         Op::Advance(t) => format!("Advance {}", t),
         Op::Close(s) => format!("Close {}", s),
+        Op::Scan => "Scan".to_string(),
+        Op::Sleep(l) => format!("Sleep {}", z(*l as i128)),
     });
     format!("mk_case {} {} {}", c.maxinfl, c.maxpend, ops)
 }
@@ -280,6 +316,28 @@ impl Property for P {
             // sequence numbers at the u32 boundary (witness of the merge_chunks overflow)
             case(vec![Submit(5, 0), Pump, Chunk(1001, 4294967294, 0, 70, 0, 2), Chunk(1001, 4294967295, 1, 70, 1, 2), Close(0)]),
             case(vec![Submit(5, 0), Submit(5, 0), Pump, Pump, Chunk(1001, 4294967295, 1, 70, 0, 1), Chunk(1002, 1, 1, 71, 0, 1)]),
+            // ---- the wake-up instant of next_timeout, and an idle transport that sleeps until it ----
+            // nothing pending: no wake-up; one request: its deadline
+            case(vec![Scan, Sleep(-1), Submit(4, 0), Scan, Pump, Scan, Sleep(-1), Scan, Close(0)]),
+            // a long request (a Publish) and a short one (a Read) on an idle transport: the wake-up is
+            // the deadline of the short one; it gets BadTimeout at the first scan after the sleep, its
+            // late response is dropped, the long one is still answered
+            case(vec![Submit(9, 0), Submit(2, 0), Pump, Pump, Sleep(-1), Scan, Chunk(1002, 1, 1, 70, 0, 1), Chunk(1001, 2, 1, 71, 0, 1), Scan, Close(0)]),
+            // three different deadlines, submitted in neither order; the transport sleeps from one to the next
+            case(vec![Submit(5, 0), Submit(2, 0), Submit(3, 0), Pump, Pump, Pump, Sleep(-1), Sleep(-1), Chunk(1002, 1, 1, 70, 0, 1),
+                      Chunk(1003, 2, 1, 71, 0, 1), Sleep(-1), Chunk(1003, 3, 1, 72, 0, 1), Sleep(-1), Sleep(-1), Chunk(1001, 4, 1, 73, 0, 1), Close(0)]),
+            // equal deadlines; the earliest one answered before the scan: the wake-up moves to the next
+            case(vec![Submit(3, 0), Submit(3, 0), Submit(1, 0), Submit(6, 0), Pump, Pump, Pump, Pump, Scan, Chunk(1003, 1, 1, 70, 0, 1), Scan, Sleep(-1), Sleep(-1), Sleep(-1), Sleep(-1), Sleep(-1)]),
+            // a sleep cut short by a submission: the new request's deadline may be the next wake-up
+            case(vec![Submit(6, 0), Pump, Sleep(2), Submit(1, 0), Pump, Sleep(-1), Pump, Sleep(9), Pump, Scan]),
+            // the response arrives at the very instant of the deadline, before the scan: delivered
+            case(vec![Submit(2, 0), Submit(4, 0), Pump, Pump, Sleep(-1), Chunk(1001, 1, 1, 70, 0, 1), Sleep(-1), Sleep(-1), Chunk(1002, 2, 1, 71, 0, 1)]),
+            // a multi-chunk response interrupted by the deadline: the rest is dropped, the next response is not confused
+            case(vec![Submit(2, 0), Submit(7, 0), Pump, Pump, Chunk(1001, 1, 0, 70, 0, 2), Sleep(-1), Sleep(0), Chunk(1001, 2, 1, 70, 1, 2), Chunk(1002, 3, 1, 71, 0, 1)]),
+            // inflight limit reached: the queue is not looked at but the wake-up is still the earliest deadline
+            Case { maxinfl: 2, ..case(vec![Submit(5, 0), Submit(3, 0), Submit(2, 0), Pump, Pump, Pump, Sleep(-1), Pump, Pump, Sleep(-1), Sleep(-1), Sleep(-1), Scan]) },
+            // time passing unnoticed (Advance) and then sleeping; zero timeouts; sleeping when closed
+            case(vec![Submit(0, 0), Submit(4, 0), Submit(2, 0), Pump, Pump, Pump, Advance(3), Sleep(-1), Sleep(-1), Close(0), Sleep(-1), Scan, Sleep(3)]),
         ]
     }
     fn gen(r: &mut Rng) -> Case {
@@ -297,11 +355,23 @@ impl Property for P {
         if boundary { seq = 0xFFFF_FFFF - r.below(4) as u32; }
         // a multi-chunk response in progress: (request id, message, parts, next part)
         let mut prog: Vec<(u32, u32, u32, u32)> = Vec::new();
+        // an idle transport with several pending requests of different deadlines: from there on time
+        // passes mostly by sleeping until the wake-up that next_timeout returned
+        let idle = r.chance(2, 5);
+        if idle {
+            let m = 2 + r.below(4) as usize;
+            let mut ts: Vec<u32> = Vec::new();
+            while ts.len() < m { let t = 1 + r.below(9) as u32; if r.chance(1, 6) || !ts.contains(&t) { ts.push(t); } }
+            for t in &ts { c.ops.push(Op::Submit(*t, 0)); }
+            for _ in 0..m { c.ops.push(Op::Pump); if (inflight.len() as u32) < c.maxinfl { inflight.push((next_id, 0)); next_id += 1; } else { queued.push(0); } }
+        }
         for _ in 0..nops {
             let x = r.below(100);
-            if x < 22 {
+            if idle && x < 30 || x >= 97 {
+                c.ops.push(match r.below(8) { 0 => Op::Scan, 1 => Op::Sleep(r.below(4) as i32), _ => Op::Sleep(-1) });
+            } else if x < 22 {
                 let kind = if r.chance(1, 12) { 1 } else if r.chance(1, 12) { 2 } else { 0 };
-                c.ops.push(Op::Submit(r.below(4) as u32, kind)); queued.push(kind);
+                c.ops.push(Op::Submit(r.below(if idle { 7 } else { 4 }) as u32, kind)); queued.push(kind);
             } else if x < 44 {
                 c.ops.push(Op::Pump);
                 if !queued.is_empty() && (inflight.len() as u32) < c.maxinfl { let k = queued.remove(0); if k != 1 { inflight.push((next_id, 0)); } next_id += 1; }
@@ -333,15 +403,19 @@ impl Property for P {
                     }
                 }
             } else if x < 90 {
-                c.ops.push(Op::Advance(r.below(3) as u32));
+                if idle && r.chance(4, 5) { c.ops.push(Op::Sleep(if r.chance(1, 3) { r.below(3) as i32 } else { -1 })); }
+                else { c.ops.push(Op::Advance(r.below(3) as u32)); }
+            } else if idle && r.chance(2, 3) {
+                // keep most idle transports open: a response for a request id of the past instead
+                mid += 1;
+                let s = seq; seq = seq.wrapping_add(1);
+                c.ops.push(Op::Chunk(1001 + r.below((next_id - 1000) as u64) as u32, s, 1, mid, 0, 1));
             } else if x < 93 {
                 c.ops.push(Op::ErrMsg(*r.pick(&[0u32, 0, 2, 3, 10, 98])));
             } else if x < 94 {
                 c.ops.push(Op::AckMsg);
-            } else if x < 97 {
-                c.ops.push(Op::Close(*r.pick(&[0u32, 0, 1, 2, 3])));
             } else {
-                c.ops.push(Op::Pump);
+                c.ops.push(Op::Close(*r.pick(&[0u32, 0, 1, 2, 3])));
             }
         }
         if r.chance(3, 4) { c.ops.push(Op::Close(*r.pick(&[0u32, 3]))); }
@@ -353,7 +427,8 @@ impl Property for P {
         let closes = c.ops.iter().any(|o| matches!(o, Op::Close(_) | Op::AckMsg | Op::ErrMsg(_)));
         let multi = c.ops.iter().any(|o| matches!(o, Op::Chunk(_, _, _, _, _, n) if *n > 1));
         let adv = c.ops.iter().any(|o| matches!(o, Op::Advance(t) if *t > 0));
-        let tag = format!("{}-{}-{}", if multi { "multichunk" } else { "singlechunk" }, if adv { "timeouts" } else { "notimeouts" }, if closes { "close" } else { "noclose" });
+        let sleeps = c.ops.iter().any(|o| matches!(o, Op::Sleep(_) | Op::Scan));
+        let tag = format!("{}-{}-{}{}", if multi { "multichunk" } else { "singlechunk" }, if adv { "timeouts" } else { "notimeouts" }, if closes { "close" } else { "noclose" }, if sleeps { "-sleeps" } else { "" });
         Out { tag, term: term(c), out }
     }
 }
